@@ -46,25 +46,74 @@ func withReader(r io.Reader, f func()) {
 	f()
 }
 
+// results of the byte-returning helpers are kept (the slices themselves, with a copy of what they held when they
+// were returned): a later helper call must not change an earlier result
+type heldResult struct {
+	b    []byte
+	snap string
+	from string
+}
+
+var held []heldResult
+
+func hold(from string, bs ...[]byte) {
+	for _, b := range bs {
+		if len(b) == 0 {
+			continue
+		}
+		if len(held) >= 32 {
+			held = held[1:]
+		}
+		held = append(held, heldResult{b, string(b), from})
+	}
+}
+
+// heldChanged reports the first kept result that no longer holds what it held
+func heldChanged() (string, bool) {
+	for i, h := range held {
+		if string(h.b) != h.snap {
+			held = append(held[:i:i], held[i+1:]...)
+			return "changed:result of an earlier " + h.from + " call changed from " + hx([]byte(h.snap)) + " to " + hx(h.b), true
+		}
+	}
+	return "", false
+}
+
+func heldBytes(from string, b []byte, err error) (string, bool) {
+	if msg, bad := heldChanged(); bad {
+		return msg, true
+	}
+	hold(from, b)
+	return bytesOrErr(b, err), true
+}
+
 func run2(f []string) (string, bool) {
 	switch f[0] {
 	case "to8":
-		return okBytes(otp.To8ByteBigEndian(u64(f[1]))), true
+		return heldBytes(f[0], otp.To8ByteBigEndian(u64(f[1])), nil)
 	case "pdec8a":
-		return bytesOrErr(otp.ParseDecimalToBigEndian8(string(unhx(f[1])))), true
+		b, err := otp.ParseDecimalToBigEndian8(string(unhx(f[1])))
+		return heldBytes(f[0], b, err)
 	case "pdec8b":
-		return bytesOrErr(otp.ParseDecimal64BigEndian(string(unhx(f[1])))), true
+		b, err := otp.ParseDecimal64BigEndian(string(unhx(f[1])))
+		return heldBytes(f[0], b, err)
 	case "lpad":
 		return okStr(otp.LeftPadHex(string(unhx(f[1])), int(i64(f[2])))), true
 	case "phexts":
-		return bytesOrErr(otp.ParseHexTimestamp(string(unhx(f[1])))), true
+		b, err := otp.ParseHexTimestamp(string(unhx(f[1])))
+		return heldBytes(f[0], b, err)
 	case "pchal":
-		return bytesOrErr(otp.ParseDecimalChallengeRFC6287(string(unhx(f[1])))), true
+		b, err := otp.ParseDecimalChallengeRFC6287(string(unhx(f[1])))
+		return heldBytes(f[0], b, err)
 	case "hexin":
 		in, err := otp.HexInputToOCRA(string(unhx(f[1])), string(unhx(f[2])), string(unhx(f[3])), string(unhx(f[4])), string(unhx(f[5])))
+		if msg, bad := heldChanged(); bad {
+			return msg, true
+		}
 		if err != nil {
 			return errOut(err), true
 		}
+		hold(f[0], in.Counter, in.Challenge, in.Password, in.SessionInfo, in.Timestamp)
 		return "ok:" + fmtInput(in), true
 	case "b32enc":
 		return okStr(base32.StdEncoding.WithPadding(base32.NoPadding).EncodeToString(unhx(f[1]))), true
